@@ -21,7 +21,7 @@ ASSUMPTIONS = ["titles, names, items and field values are single-line and contai
                "blank/whitespace-only lines are not constrained by the property and are ignored"]
 BUDGET = {"quick": {"shards": 8, "examples": 400}, "thorough": {"shards": 16, "examples": 4000}}
 
-HEADER_POOL = list("#*=-_~!&@^+:.'\"`$%<>")
+HEADER_POOL = list("#*=-_~!&@^+:.'\"`$%<>\\|")
 
 _word = st.text(alphabet="abcdefgXYZ019_-*:.#[]`|\\é漢 ", min_size=1, max_size=12).filter(lambda s: s.strip() != "")
 _name = st.text(alphabet="abcdefgXYZ_-:", min_size=1, max_size=8).filter(lambda s: s.strip() != "")
@@ -29,6 +29,8 @@ _line = st.one_of(
     _word,
     st.builds(lambda n, w: " " * n + w, st.integers(0, 7), _word),
     st.sampled_from(["", "   ", ".. note:: x", ":field: v", "* item", "   indented", "#. x", "::"]),
+    # characters str.splitlines() treats as line boundaries (the writer's lines are separated by LF only)
+    st.sampled_from(["form\x0cfeed", "nel\x85x", "ls\u2028x", "fs\x1cgs\x1dx", "lone\rcr", "vt\x0bx"]),
 )
 _text = st.lists(_line, min_size=1, max_size=5).map("\n".join)
 
@@ -141,7 +143,11 @@ def evaluate(case):
     headers = case["headers"]
     settings = Settings()
     settings.rst.headers = {"tuple": tuple(headers), "str": "".join(headers)}.get(case.get("hdr_type"), list(headers))
-    real_root = R.RSTWriter(case["title"], settings=settings)
+    try:
+        real_root = R.RSTWriter(case["title"], settings=settings)
+    except Exception as e:
+        res.fail("exception:" + type(e).__name__, f"constructing the writer: {e!r}")
+        return res
     model_root = M("w", case["title"], 0, 0)
     open_c = [(real_root, model_root)]
     flags = set()
